@@ -23,6 +23,7 @@ var AssumedContracts = map[string]string{
 	"strconv.ParseUint(s,10,64)":                                           "succeeds iff s is 1..n ASCII digits and fits; result = dec_val(s); for len(s)<=8 dec_val(s) <= 99999999",
 	"strconv.Atoi / ParseInt(s,10,64)":                                     "succeeds iff s is an optional sign followed by digits and fits; result = signed value",
 	"strings.SplitN(s, sep, 2)":                                            "1 part iff sep does not occur, else 2 parts",
+	"maps.Clone": "shallow copy: nil for nil, else a new map with equal keys and identical (shared) values",
 	"metadata.MD.Get/Join/Pairs/Copy/Append, From*Context, NewIncomingContext": "multimap operations on abstract metadata values; Append on a nil MD panics; FromOutgoingContext may return nil",
 	"proto.Marshal/Unmarshal":                                              "opaque; Marshal result is a fresh byte slice",
 	"carrier stream Send/Recv/Context/CloseSend/SendHeader/Header":         "Send may block and returns an arbitrary error; Recv returns an arbitrary frame (set oneof members non-nil) or an error; no package state is touched",
@@ -301,6 +302,26 @@ func (e *Exec) external(st *State, instr ssa.Instruction, name string, fn *ssa.F
 			st.assume(app("bvuge", n, bvLitI(1, 64)))
 		}
 		return ret(Val{T: []string{r, bvLitI(0, 64), n, n}})
+	case "maps.Clone":
+		// shallow copy: nil stays nil; otherwise a new map with the same
+		// keys and the same values (element slices shared with the source)
+		mt, ok := under(resType).(*types.Map)
+		if !ok {
+			break
+		}
+		m := args[0].T[0]
+		r := e.allocRef(st, "mapclone")
+		pk := mapKeyName(mt) + "#present"
+		ps := arr(SInt, arr(e.mapKeySort(mt), SBool))
+		pa := e.curArr(st, pk, ps)
+		e.setArr(st, pk, ps, app("store", pa, r, app("select", pa, m)))
+		for _, l := range shape(mt.Elem()) {
+			vk := leafKey(mapKeyName(mt)+"#val", l)
+			vs := arr(SInt, arr(e.mapKeySort(mt), l.Sort))
+			va := e.curArr(st, vk, vs)
+			e.setArr(st, vk, vs, app("store", va, r, app("select", va, m)))
+		}
+		return ret(Val{T: []string{tIte(tEq(m, "0"), "0", r)}})
 	// ---- metadata ----
 	case "(metadata.MD).Get":
 		return ret(e.mdGet(st, args[0].T[0], args[1].T[0]))
